@@ -117,7 +117,7 @@ class Rejection(Sampler):
         if quantile is None and threshold is None and n_sim is None:
             quantile = .01
         self.state = dict(samples=None, threshold=np.Inf,
-                          n_sim=0, accept_rate=1, n_batches=0)
+                          n_sim=0, accept_rate=1, n_batches=0, n_filled=0)
 
         if quantile:
             n_sim = ceil(n_samples / quantile)
@@ -232,7 +232,14 @@ class Rejection(Sampler):
         # Sort the smallest to the beginning
         # note: last (-1) distance measure is used when distance calculation is nested
         sort_distance = np.atleast_2d(np.transpose(samples[self.discrepancy_name]))[-1]
-        sort_mask = np.argsort(sort_distance)
+        # Rows that do not hold a simulated draw yet must come after every draw, also after
+        # draws with an infinite distance. The draws are in the beginning and in the end.
+        n_rows = len(sort_distance)
+        n_filled = self.state.get('n_filled', 0)
+        unfilled = np.zeros(n_rows, dtype=bool)
+        unfilled[n_filled:n_rows - int(num_accepted)] = True
+        self.state['n_filled'] = min(n_rows, n_filled + int(num_accepted))
+        sort_mask = np.lexsort((unfilled, sort_distance))
         for k, v in samples.items():
             v[:] = v[sort_mask]
 
